@@ -214,21 +214,49 @@ type Deflater struct {
 	Level    int
 	w        *flate.Writer
 	buf      bytes.Buffer
+	hist     []byte // last 32 KiB of what was compressed (context takeover)
+}
+
+func (d *Deflater) level() int {
+	if d.Level == 0 {
+		return flate.DefaultCompression
+	}
+	return d.Level
 }
 
 // Compress returns the message payload for one message. flushAt lists
 // offsets at which an additional sync flush is inserted; bfinal ends the
-// message with a BFINAL=1 block followed by 0x00 (7.2.3.4) and resets the
-// sender's context.
+// message with a BFINAL=1 block followed by 0x00 (7.2.3.4). Under context
+// takeover the LZ77 window survives a BFINAL ending: the next message is
+// compressed with the history as preset dictionary, which is exactly what the
+// receiver's window holds.
 func (d *Deflater) Compress(msg []byte, flushAt []int, bfinal bool) []byte {
-	if d.w == nil || !d.Takeover {
-		lvl := d.Level
-		if lvl == 0 {
-			lvl = flate.DefaultCompression
-		}
+	if d.w == nil && d.Takeover && len(d.hist) > 0 {
+		// continue after a BFINAL ending with the history as preset dictionary.
+		// compress/flate's dictionary writer has been seen to emit a wrong
+		// stream for incompressible input of a window or more, so the result is
+		// verified and a context reset (always legal for a sender) is the fallback.
 		d.buf.Reset()
-		d.w, _ = flate.NewWriter(&d.buf, lvl)
+		histBefore := d.hist
+		d.w, _ = flate.NewWriterDict(&d.buf, d.level(), d.hist)
+		out := d.compressWith(msg, flushAt, bfinal)
+		if back, err := Inflate(out, histBefore, len(msg)+64); err == nil && bytes.Equal(back, msg) {
+			return out
+		}
+		d.w = nil
+		d.hist = nil
+		d.buf.Reset()
+		d.w, _ = flate.NewWriter(&d.buf, d.level())
+		return d.compressWith(msg, flushAt, bfinal)
 	}
+	if d.w == nil || !d.Takeover {
+		d.buf.Reset()
+		d.w, _ = flate.NewWriter(&d.buf, d.level())
+	}
+	return d.compressWith(msg, flushAt, bfinal)
+}
+
+func (d *Deflater) compressWith(msg []byte, flushAt []int, bfinal bool) []byte {
 	d.buf.Reset()
 	last := 0
 	for _, off := range flushAt {
@@ -240,6 +268,9 @@ func (d *Deflater) Compress(msg []byte, flushAt []int, bfinal bool) []byte {
 		last = off
 	}
 	d.w.Write(msg[last:])
+	if d.Takeover {
+		d.hist = appendWindow(d.hist, msg)
+	}
 	if bfinal {
 		d.w.Close()
 		d.w = nil
